@@ -167,8 +167,10 @@ def _lemma_frame(prop, attr_sets):
         for attr, allowed in attr_sets.items():
             w = writers_of(mod, 'SyncObj', attr)
             extra = [x for x in w if x not in allowed]
+            # a writer outside the contracted set means the code was restructured in a way the contracts do not cover:
+            # that is *undecided* (exit 2), not a violation - the semantic clauses of the units decide violations
             out.append(dict(id='%s:frame.writers-of-%s-are-under-contract' % (prop, attr.strip('_')), unit='lemma.frame', path='ast',
-                            status='discharged' if not extra else 'failed', solver='ast-frame-analysis', secs=0.0,
+                            status='discharged' if not extra else 'unknown', solver='ast-frame-analysis', secs=0.0,
                             model={'writers': w, 'uncontracted': extra}, info='writers=%s' % w, line=None))
         return out
     return run
@@ -193,7 +195,7 @@ def _lemma_callers(prop, table):
             callers = sorted(m for m, fn in ci.methods.items() if helper in self_calls(fn))
             extra = [c for c in callers if c not in allowed]
             out.append(dict(id='%s:frame.callers-of-%s-are-under-contract' % (prop, helper.strip('_')), unit='lemma.frame', path='ast',
-                            status='discharged' if not extra else 'failed', solver='ast-frame-analysis', secs=0.0,
+                            status='discharged' if not extra else 'unknown', solver='ast-frame-analysis', secs=0.0,
                             model={'callers': callers, 'uncontracted': extra}, info='callers=%s' % callers, line=None))
         return out
     return run
